@@ -283,6 +283,11 @@ pub fn assemble<S>(
             assembly.decls.as_ref().unwrap(),
             assembly.defs.as_mut().unwrap())?;
 
+        check_unused_defines(
+            report,
+            opts,
+            assembly.decls.as_ref().unwrap())?;
+
         assembly.output = Some(output::build_output(
             report,
             assembly.ast.as_ref().unwrap(),
@@ -293,11 +298,6 @@ pub fn assemble<S>(
         crate::verif::emit("output_built", vec![
             ("len", crate::verif::V::I(assembly.output.as_ref().unwrap().len() as i128)),
         ]);
-
-        check_unused_defines(
-            report,
-            opts,
-            assembly.decls.as_ref().unwrap())?;
 
         #[cfg(hlorenzi_customasm_verif)]
         crate::verif::emit("defines_checked", vec![]);
